@@ -250,7 +250,7 @@ REP = "ffcx.ir.representation"
 
 @rule(
     "GEN-INTEGRAL-IR",
-    ["C05", "C06", "C08", "C01", "C02", "C11"],
+    ["C05", "C06", "C08", "C01", "C02", "C11", "C19", "C03"],
     "_compute_integral_ir interpreted on a sample form with several integral groups (cell, exterior facet, interior facet, vertex; "
     "two meshes, two quadrature rules in one group, a prism group with two facet types): after the whole loop every group's record is "
     "read back and compared with a specification evaluated per group - coefficient offsets = exclusive prefix sums of the element "
@@ -284,6 +284,7 @@ def gen_integral_ir(repo, res):
         ("interior_facet", meshA, ("otherwise",), [True, True, False], {"interval": {r2: ["i1"]}}),
         ("vertex", meshA, (7,), [False, False, True], {"vertex": {r1: ["v1"]}}),
         ("cell", meshB, (1,), [True, True, True], {"prism": {r1: ["p1"]}}),
+        ("ridge", meshB, (9, 4), [True, False, False], {"interval": {r1: ["g1", "g2"]}}),
     ]
 
     def run(nargs, part):
